@@ -149,7 +149,10 @@ def judge(acc, model, P, df, want, f, loopless, pf, ident, rec=None):
     exact = None
     kind = None
     if not loopless:
-        if pf is None or f == 1.0:
+        z_ok = ident.get("optimum") is None or (ident["optimum"] >= 0 if ident.get("direction") == "max" else ident["optimum"] <= 0)
+        if pf is None or f == 1.0 or z_ok:
+            # cap = pfba_factor x the smallest total flux *under the requested objective
+            # requirement* (the nested pFBA runs on the model that already carries it)
             exact = oracles.fva_exact(P, want, f, pf)
             kind = "pfba" if pf is not None else "plain"
     else:
@@ -185,16 +188,36 @@ def judge(acc, model, P, df, want, f, loopless, pf, ident, rec=None):
                 nvec = sum(1 for n in cyc.N if n[cyc.idx[rid]] != 0) if rid in cyc.idx else 0
                 wider = lo <= float(qlo) + 1e-6 and hi >= float(qhi) - 1e-6
                 narrower = lo >= float(qlo) - 1e-6 and hi <= float(qhi) + 1e-6
-                # mechanism: the implementation post-processes ONE optimal vertex per
-                # reaction with CycleFreeFlux (boundary fluxes of that vertex fixed); the
-                # value it reports is a feasible loop-reduced flux, hence inside the plain
-                # range, but not the extreme over all loop-free distributions
-                if inside_plain and wider:
-                    key = "C05/loopless/cyclefreeflux-heuristic-inexact/wider-than-exact-but-inside-plain"
-                elif inside_plain and narrower:
+                # Mechanisms of the recorded finding (the implementation post-processes ONE
+                # optimal vertex per reaction with CycleFreeFlux and, if that changed the
+                # target's flux, closes the reactions that only ran in the loop and
+                # re-optimises).  Each class below is *proved* from the structure of the
+                # case; a discrepancy that fits none of them is a fresh violation.
+                #  (a) an objective reaction lies on an internal cycle: the objective
+                #      requirement is computed from the loop-inflated optimum, so the loop
+                #      cannot be removed;
+                #  (b) narrower than exact: closing whole reactions also forbids their
+                #      loop-free use (needs the target on a cycle);
+                #  (c) wider / shifted with >= 2 independent cycles and the target on a
+                #      cycle: another cycle carries the loop after one was closed.
+                # With a single cycle, no objective reaction on it and a result that is not
+                # narrower, the correct heuristic is exact: either the loop-free vertex
+                # keeps the plain optimum (then it *is* the loop-free optimum), or closing
+                # the cycle's other reactions removes the only loop.
+                obj_rids = {r_ for r_ in P.rids if P.c.get(P.col[r_])}
+                obj_on_cycle = bool(obj_rids & set(cyc.cycle_rxns))
+                target_on_cycle = rid in cyc.cycle_rxns
+                shape = "wider" if wider else "narrower" if narrower else "shifted"
+                if inside_plain:
+                    acc.add("known_loopless_shapes", f"nullity={len(cyc.N)} target_on_cycle={target_on_cycle} obj_on_cycle={obj_on_cycle} {shape}")
+                if inside_plain and obj_on_cycle:
+                    key = "C05/loopless/cyclefreeflux-heuristic-inexact/objective-reaction-on-an-internal-cycle"
+                elif inside_plain and target_on_cycle and narrower:
                     key = "C05/loopless/cyclefreeflux-heuristic-inexact/narrower-than-exact"
+                elif inside_plain and target_on_cycle and len(cyc.N) >= 2:
+                    key = "C05/loopless/cyclefreeflux-heuristic-inexact/several-cycles-" + ("wider-than-exact-but-inside-plain" if wider else "shifted-inside-plain")
                 elif inside_plain:
-                    key = "C05/loopless/cyclefreeflux-heuristic-inexact/shifted-inside-plain"
+                    key = "C05/loopless/wrong-range/" + ("target-not-on-a-cycle" if not target_on_cycle else "single-cycle-not-removed")
                 extra = {"plain": [float(plo), float(phi)] if plain else None, "cycle_reactions": cyc.cycle_rxns, "nullity": len(cyc.N), "basis_vectors_through_target": nvec}
             acc.violation(
                 key,
